@@ -365,8 +365,8 @@ func c16Automaton(c *Ctx) {
 	pkg := "pkg/upstream/healthcheck"
 	type side struct {
 		fn, resetCnt, ownCnt, threshold, flip string
-		containTrue                          bool // increment only when ContainHealthFlag is true
-		callbacks                            []string
+		containTrue                           bool // increment only when ContainHealthFlag is true
+		callbacks                             []string
 	}
 	sides := []side{
 		{"HandleSuccess", "unHealthCount", "healthCount", "healthyThreshold", "ClearHealthFlag", true, []string{"incHealthy", "log"}},
